@@ -253,6 +253,30 @@ func (m *Model) altMatches(alt, whole *Term, wu *writeUnit, col string, ev map[*
 	return false
 }
 
+// isNullTestOf: ex is `<p> IS NULL` for the same statement parameter p.
+func isNullTestOf(ex, p *sqlp.Expr) bool {
+	if ex == nil || p == nil || ex.Kind != sqlp.EIsNull || ex.Not || len(ex.Args) != 1 {
+		return false
+	}
+	a := ex.Args[0]
+	return a.Kind == sqlp.EParam && p.Kind == sqlp.EParam && a.Name == p.Name
+}
+
+// termNonNil: the (byte slice) value the term denotes is never nil: a conversion of a string,
+// the result of a formatter or of a successful encoder.
+func termNonNil(t *Term) bool {
+	switch t.Kind {
+	case "const", "literal":
+		return true
+	case "call":
+		switch t.Name {
+		case "strconv.FormatUint", "strconv.FormatInt", "strconv.Itoa", "strconv.AppendUint", "strconv.AppendInt", "fmt.Sprintf", "fmt.Sprint", "fmt.Appendf":
+			return true
+		}
+	}
+	return false
+}
+
 // deletionMatches: the event's deletion flag agrees with what the unit stores.
 func (m *Model) deletionMatches(alt *Term, wu *writeUnit, ev map[*types.Var]*Term, ftab map[string]*types.Var) bool {
 	vsrc := wu.Cols["value"]
@@ -290,6 +314,26 @@ func (m *Model) deletionMatches(alt *Term, wu *writeUnit, ev map[*types.Var]*Ter
 	switch {
 	case vsrc.Kind == "literal" && isNullLit(vsrc.Expr):
 		return alt.Kind == "const" && alt.Name == "true"
+	case vsrc.Kind == "bound" && tsrc.Kind == "sqlexpr" && isNullTestOf(tsrc.Expr, vsrc.Expr):
+		// tombstone = (<the bound body> IS NULL): the flag follows the body. An event flag that is
+		// not itself a test of the body (case (i)) is right only if the bound body's nil-ness is
+		// known: never nil -> false, always nil -> true
+		never, always := true, true
+		for _, s := range vsrc.Term.alts() {
+			if !termNonNil(s) {
+				never = false
+			}
+			if !isZeroTerm(s) {
+				always = false
+			}
+		}
+		if never {
+			return isZeroTerm(alt)
+		}
+		if always {
+			return alt.Kind == "const" && alt.Name == "true"
+		}
+		return false
 	case vsrc.Kind == "bound" && tsrc.Kind == "literal":
 		n, _ := litInt(tsrc.Expr)
 		if n == 0 {
